@@ -1,2 +1,62 @@
-(* C09 — placeholder *)
-From HC Require Import Base.
+(* C09 — no request or proof from a peer can panic the node (pinned statements; proofs in NoPanic.v).
+   In the model every u64 overflow, index out of bounds, unwrap of None and loop of the crate's proof code is
+   an explicit Panic / OutOfFuel outcome; `returns r = true` means r is a value or an error.
+   Proved, for numeric fields below LIM = 2^40 and node lists of ANY length, hashes, signatures and values
+   arbitrary: verification of every proof WITHOUT an upgrade section returns (never Panic, never OutOfFuel),
+   against every tree and tree store; the computed root index stays below 2^42 so that the store offset
+   40*index cannot overflow; verification of proofs WITH an upgrade section never panics provided the byte
+   lengths carried by the node lists cannot overflow u64 in sum (true for lists up to 2^20 nodes; a list of
+   2^24 maximal nodes — a gigabyte-sized message — could overflow the crate's `byte_length += length` in a debug
+   build: recorded in DESIGN 12 as an observation outside the property's per-field bound); creation of a
+   block proof returns for every block index and node count whatever the peer asks.
+   Partial: freedom from fuel exhaustion (termination) of the upgrade loops is proved only under the size
+   conditions stated in NoPanic.v (upgrade_roots_loop_returns, extra_rest_returns), not for arbitrary hostile
+   lists; proof creation with hash / seek / upgrade requests is not covered by a theorem. Both are covered on
+   every run by tools/c09.py: boundary request tuples on six core shapes, structurally arbitrary proofs and the
+   C04 alteration set, under catch_unwind + watchdog in a build with overflow checks, compared with the model. *)
+From HC Require Import Base NMap Codec CodecFacts Crypto FlatTree Storage Oplog Merkle NoPanic.
+
+Theorem C09_verify_returns_without_upgrade : forall cr t tf pf pk,
+  p_upgrade pf = None ->
+  block_lim (p_block pf) = true -> hash_lim (p_hash pf) = true -> seek_lim (p_seek pf) = true ->
+  returns (verify_proof cr t tf pf pk) = true.
+Proof. exact verify_proof_returns. Qed.
+
+Theorem C09_verify_tree_returns : forall cr block hash seek c,
+  block_lim block = true -> hash_lim hash = true -> seek_lim seek = true ->
+  returns (verify_tree cr block hash seek c) = true /\
+  (forall root c', verify_tree cr block hash seek c = Ok (root, c') ->
+     same_tree c c' /\ (forall r, root = Some r -> n_index r < 4 * LIM /\ n_length r <= 87 * LIM)).
+Proof. exact verify_tree_returns. Qed.
+
+Theorem C09_verify_never_panics : forall cr t tf pf pk,
+  block_lim (p_block pf) = true -> hash_lim (p_hash pf) = true -> seek_lim (p_seek pf) = true ->
+  proof_upgrade_ok t pf -> no_panic (verify_proof cr t tf pf pk) = true.
+Proof. exact verify_proof_no_panic. Qed.
+
+Theorem C09_upgrade_side_condition : forall t pf u,
+  p_upgrade pf = Some u -> upgrade_lim u = true ->
+  nodes_lim (du_nodes u) = true -> nodes_lim (du_additional u) = true ->
+  N.of_nat (length (du_nodes u)) <= MAXN -> N.of_nat (length (du_additional u)) <= MAXN ->
+  lens (t_roots t) <= t_byte_length t -> t_byte_length t < 2 ^ 62 -> proof_upgrade_ok t pf.
+Proof. exact proof_upgrade_ok_of_lim. Qed.
+
+Theorem C09_upgrade_fuel_sources : forall cr fork u block_root pk c,
+  verify_upgrade cr fork u block_root pk c = OutOfFuel ->
+  (exists to grow, upgrade_roots_loop cr CLIMB c (mkQ (du_nodes u) block_root) (it_new 0) to 0 grow = OutOfFuel) \/
+  (exists it0 n, In n (du_additional u) /\ descend_to CLIMB it0 (n_index n) = OutOfFuel).
+Proof. exact verify_upgrade_fuel_sources. Qed.
+
+Theorem C09_create_block_proof_returns : forall t tf b,
+  rb_index b < LIM -> t_length t < LIM ->
+  returns (create_valueless_proof t tf (Some b) None None None) = true.
+Proof. exact create_block_proof_returns. Qed.
+
+Print Assumptions C09_verify_returns_without_upgrade.
+Print Assumptions C09_verify_tree_returns.
+Print Assumptions C09_verify_never_panics.
+Print Assumptions C09_upgrade_side_condition.
+Print Assumptions C09_upgrade_fuel_sources.
+Print Assumptions C09_create_block_proof_returns.
+Print Assumptions verify_proof_returns_ex.
+Print Assumptions verify_proof_no_panic_ex.
